@@ -1,2 +1,3 @@
+import Dawgs.Props.C03
 import Dawgs.Props.C09
 import Dawgs.Props.C16
